@@ -302,7 +302,8 @@ def add_canaries(g):
         for k, t in enumerate(ts):
             if k in ins: new += ins[k]
             new.append(t)
-        new_lines[lo - 1] = X.emit(new).rstrip('\n')
+        # every canary is a failed query and the shared z3 process degrades after failed queries: one prover process per function
+        new_lines[lo - 1] = '#[verifier::spinoff_prover] ' + X.emit(new).rstrip('\n')
         for k in range(lo, hi): new_lines[k] = ''
     text = '\n'.join(new_lines)
     text = text.replace('verus! {', 'verus! {\nuninterp spec fn vx_canary(k: int) -> bool;\n', 1)
